@@ -281,7 +281,7 @@ def config(rc):
 _VE_Q_OLD = "        if isinstance(self.model, BayesianNetwork) and (virtual_evidence is not None):\n            orig_model = self.model\n            self._virtual_evidence(virtual_evidence)\n            virt_evidence = {\"__\" + cpd.variables[0]: 0 for cpd in virtual_evidence}\n            try:\n                return self.query("
 
 
-@rule("C16.defuse", "anchored files: every parameter is read, no value is computed and dropped (generic def-use detectors, triaged hit list)", floor=2)
+@rule("C16.defuse", "anchored files: no parameter is accepted and ignored (generic def-use detector, triaged exemptions)", floor=2)
 def defuse(rc):
     from . import shared as _sh
     _sh.defuse_rule(rc, _sh.anchor_files("C16"))
